@@ -21,3 +21,25 @@ func VerifWrapVolumes(vm *VolumeManager, wrap func(id int64, d VerifVolumeData) 
 		v.mu.Unlock()
 	}
 }
+
+// VerifSetStatusSeq runs the real (*volume).SetStatus for every element of calls on one volume
+// that starts in status initial; it returns, per call, the status afterwards and "ok" / "err" /
+// "panic".
+func VerifSetStatusSeq(initial string, calls []string) (out [][2]string) {
+	v := &volume{stats: VolumeStats{Status: initial}}
+	for _, c := range calls {
+		res := "ok"
+		func() {
+			defer func() {
+				if r := recover(); r != nil {
+					res = "panic"
+				}
+			}()
+			if err := v.SetStatus(c); err != nil {
+				res = "err"
+			}
+		}()
+		out = append(out, [2]string{v.Status(), res})
+	}
+	return
+}
